@@ -10,6 +10,7 @@ import GoZero.C16.Model
 import GoZero.C16.ModelRW
 import GoZero.C16.ModelCache
 import GoZero.C16.ConcObjs
+import GoZero.C16.ProofsR4
 set_option maxRecDepth 8000
 namespace GoZero.C16.Tie
 open GoZero.C16
@@ -496,5 +497,456 @@ theorem tie_wheelSetTimerStmts : wheelSetTimerStmts = [
     "return ErrArgument",
     "}",
     "select { case tw.setChannel <- timingEntry{ baseEntry: baseEntry{ delay: delay, key: key, }, value: value, }: return nil case <-tw.stopChannel: return ErrClosed }"] := by decide
+
+/-! ## round 4: semantic ties -/
+
+/-- `Put` grows exactly when the model does -/
+theorem tie_queueFullCond (q : Queue) :
+    queueFullCond q.head q.tail q.count = decide (q.head = q.tail ∧ q.count > 0) := by
+  simp only [queueFullCond]
+  by_cases h1 : q.head = q.tail <;> by_cases h2 : q.count > 0 <;> simp [h1, h2] <;> omega
+
+theorem tie_queueTakeEmptyCond (q : Queue) :
+    queueTakeEmptyCond q.count = decide (q.count = 0) ∧ queueEmptyExpr q.count = q.empty := by
+  simp only [queueTakeEmptyCond, queueEmptyExpr, Queue.empty]
+  by_cases h : q.count = 0 <;> simp [h]
+
+/-- `copy(dst[len(a):], src)` on `dst = a ++ b` with room for `src` -/
+theorem goCopy_append (a b src : List Nat) (h : src.length ≤ b.length) :
+    goCopy (a ++ b) (a.length : Int) src = a ++ src ++ b.drop src.length := by
+  unfold goCopy
+  have e1 : ((a.length : Int)).toNat = a.length := Int.toNat_natCast _
+  rw [e1]
+  have e2 : (a ++ b).length - a.length = b.length := by simp
+  rw [e2, List.take_left' rfl, List.take_of_length_le h, Nat.min_eq_left h, List.drop_length_add_append]
+
+/-- **the growth block of `Put`, translated statement by statement (`make`, the two `copy` calls with their offsets, the
+index resets), computes the model's `Queue.grow`**: new buffer = `elements[head:] ++ elements[:head] ++ zeros(size)`,
+head 0, tail = old length — for every buffer, every wrapped head (`head ≤ len`), every growth step -/
+theorem tie_queueGrowProg (elems : List Nat) (head size : Nat) (h : head ≤ elems.length) :
+    queueGrowProg elems head size
+      = (elems.drop head ++ elems.take head ++ List.replicate size 0, 0, (elems.length : Int)) := by
+  unfold queueGrowProg
+  simp only []
+  have m : goMake ((elems.length : Int) + (size : Int)) = List.replicate (elems.length + size) 0 := by
+    unfold goMake
+    have : ((elems.length : Int) + (size : Int)).toNat = elems.length + size := by omega
+    rw [this]
+  have s1 : goSlice elems (head : Int) (elems.length : Int) = elems.drop head := by
+    unfold goSlice
+    rw [Int.toNat_natCast, Int.toNat_natCast, List.take_length]
+  have s2 : goSlice elems 0 (head : Int) = elems.take head := by
+    unfold goSlice
+    rw [Int.toNat_natCast]
+    simp
+  rw [m, s1, s2]
+  have c1 : goCopy (List.replicate (elems.length + size) 0) 0 (elems.drop head)
+      = elems.drop head ++ List.replicate (head + size) 0 := by
+    have := goCopy_append [] (List.replicate (elems.length + size) 0) (elems.drop head) (by simp; omega)
+    simp only [List.nil_append, List.length_nil, Int.natCast_zero] at this
+    rw [this, List.drop_replicate, List.length_drop]
+    congr 2
+    omega
+  rw [c1]
+  have e : ((elems.length : Int) - (head : Int)) = ((elems.drop head).length : Int) := by
+    rw [List.length_drop]; omega
+  rw [e, goCopy_append _ _ _ (by simp; omega), List.drop_replicate, List.length_take, Nat.min_eq_left h]
+  congr 3
+  omega
+
+/-- `Queue.grow` is the translated condition + the translated growth block -/
+theorem tie_queueGrow (q : Queue) (h : q.head ≤ q.elems.length) :
+    q.grow = if queueFullCond q.head q.tail q.count then
+        { q with elems := (queueGrowProg q.elems q.head q.size).1,
+                 head := (queueGrowProg q.elems q.head q.size).2.1.toNat,
+                 tail := (queueGrowProg q.elems q.head q.size).2.2.toNat }
+      else q := by
+  rw [tie_queueFullCond, tie_queueGrowProg _ _ _ h]
+  unfold Queue.grow
+  by_cases c : q.head = q.tail ∧ q.count > 0
+  · simp [c]
+  · simp [c]
+
+/-- … in every reachable state of every queue (any capacity ≥ 1, any history: any number of expansions, any wrapped
+head), the growth step of the model is the translated condition and the translated growth block -/
+theorem tie_queueGrow_reachable (size : Nat) (hs : 1 ≤ size) (ops : List QOp) :
+    let q := (Queue.new size).after ops
+    q.grow = if queueFullCond q.head q.tail q.count then
+        { q with elems := (queueGrowProg q.elems q.head q.size).1,
+                 head := (queueGrowProg q.elems q.head q.size).2.1.toNat,
+                 tail := (queueGrowProg q.elems q.head q.size).2.2.toNat }
+      else q := by
+  intro q
+  exact tie_queueGrow q (Nat.le_of_lt (Queue.inv_after ops _ (Queue.inv_new size hs)).head_lt)
+
+/-! ### Ring -/
+
+/-- `NewRing` panics exactly for n < 1 (the driver's `nI < 1`) -/
+theorem tie_newRingGuard (n : Int) : newRingGuard n = decide (n < 1) := rfl
+
+/-- `Add` stores at `index % len` -/
+theorem tie_ringAddSlot (r : Ring) : ringAddSlot r.index r.elems.length = ((r.index % r.elems.length : Nat) : Int) := by
+  unfold ringAddSlot
+  rw [Int.tmod_eq_emod_of_nonneg (by omega)]
+  norm_cast
+
+/-- `r.index++; if r.index >= rlen<<1 { r.index -= rlen }` is the model's index update, for every index and length -/
+theorem tie_ringAddIndex (r : Ring) (v : Nat) : ringAddIndex r.index r.elems.length = ((r.add v).index : Int) := by
+  simp only [ringAddIndex, Ring.add]
+  by_cases h : r.index + 1 ≥ 2 * r.elems.length
+  · have : ((r.index : Int) + 1 ≥ (r.elems.length : Int) * 2) := by omega
+    simp only [this, decide_true, if_true, h]
+    omega
+  · have : ¬ ((r.index : Int) + 1 ≥ (r.elems.length : Int) * 2) := by omega
+    simp only [this, decide_false, h, if_false, Bool.false_eq_true]
+    omega
+
+/-- `Take`: `size`, `start` as the model's `Ring.sz`, `Ring.start` -/
+theorem tie_ringTakeWindow (r : Ring) : ringTakeWindow r.index r.elems.length = ((r.sz : Int), (r.start : Int)) := by
+  simp only [ringTakeWindow, Ring.sz, Ring.start]
+  by_cases h : r.index > r.elems.length
+  · have : ((r.index : Int) > (r.elems.length : Int)) := by omega
+    simp only [this, decide_true, if_true, h]
+    rw [Int.tmod_eq_emod_of_nonneg (by omega)]
+    norm_cast
+  · have : ¬ ((r.index : Int) > (r.elems.length : Int)) := by omega
+    simp [this, h]
+
+/-- element `i` of `Take` is read from slot `(start + i) % len`; the loop runs for `i < size` -/
+theorem tie_ringTakeSlot (r : Ring) (i : Nat) :
+    ringTakeSlot r.start i r.elems.length = (((r.start + i) % r.elems.length : Nat) : Int)
+    ∧ ringTakeLoopCond i r.sz = decide (i ∈ List.range r.sz) := by
+  constructor
+  · unfold ringTakeSlot
+    rw [Int.tmod_eq_emod_of_nonneg (by omega)]
+    norm_cast
+  · simp [ringTakeLoopCond]
+
+/-! ### Set -/
+
+theorem tie_setTypeConsts : setTypeConsts = [("unmanaged", 0), ("untyped", 1), ("intType", 2), ("int64Type", 3),
+    ("uintType", 4), ("uint64Type", 5), ("stringType", 6)] := by decide
+
+theorem tie_setTypeTags : ((tpUnmanaged : Int), (tpUntyped : Int)) = (0, 1) := rfl
+
+theorem tie_setSetTypeCases : setSetTypeCases = [("int", "s.tp =", 2), ("int64", "s.tp =", 3), ("uint", "s.tp =", 4),
+    ("uint64", "s.tp =", 5), ("string", "s.tp =", 6)] := by decide
+
+theorem tie_setValidateCases : setValidateCases = [("int", "log if s.tp !=", 2), ("int64", "log if s.tp !=", 3),
+    ("uint", "log if s.tp !=", 4), ("uint64", "log if s.tp !=", 5), ("string", "log if s.tp !=", 6)] := by decide
+
+/-- the dynamic types `setType` knows are the model's `knownType`, and it sets the tag to the element's type code -/
+theorem tie_knownType (t : Nat) : knownType t = decide ((t : Int) ∈ setSetTypeCases.map (·.2.2)) := by
+  rw [tie_setSetTypeCases]
+  simp only [knownType, List.map, List.mem_cons, List.not_mem_nil, or_false]
+  by_cases h : 2 ≤ t ∧ t ≤ 6
+  · have : (t : Int) = 2 ∨ (t : Int) = 3 ∨ (t : Int) = 4 ∨ (t : Int) = 5 ∨ (t : Int) = 6 := by omega
+    simp [h, this]
+  · have : ¬ ((t : Int) = 2 ∨ (t : Int) = 3 ∨ (t : Int) = 4 ∨ (t : Int) = 5 ∨ (t : Int) = 6) := by omega
+    simp [h, this]
+
+/-- `validate` logs exactly when the model's `GSet.mismatch` says so: not for an unmanaged set, and for a known dynamic
+type whose code differs from the set's tag -/
+theorem tie_setValidate (s : GSet) (x : Nat × Nat) :
+    s.mismatch x = (!setValidateSkip s.tp && setValidateCases.any fun e => decide (e.2.2 = (x.1 : Int)) && decide ((s.tp : Int) ≠ e.2.2)) := by
+  rw [tie_setValidateCases]
+  simp only [GSet.mismatch, setValidateSkip, tpUnmanaged, knownType, List.any, Bool.or_false]
+  by_cases h0 : s.tp = 0
+  · simp [h0]
+  · have h0' : ¬ ((s.tp : Int) = 0) := by omega
+    simp only [h0, h0', ne_eq, not_false_eq_true, true_and, decide_false, Bool.not_false, Bool.true_and]
+    by_cases hk : 2 ≤ x.1 ∧ x.1 ≤ 6
+    · by_cases hm : s.tp = x.1
+      · simp [hk, hm] <;> omega
+      · have h5 : x.1 = 2 ∨ x.1 = 3 ∨ x.1 = 4 ∨ x.1 = 5 ∨ x.1 = 6 := by omega
+        rcases h5 with e | e | e | e | e <;> simp [e] at hm ⊢ <;> omega
+    · have : ¬ ((2:Int) = x.1) ∧ ¬ ((3:Int) = x.1) ∧ ¬ ((4:Int) = x.1) ∧ ¬ ((5:Int) = x.1) ∧ ¬ ((6:Int) = x.1) := by omega
+      simp [hk, this]
+
+/-- `Contains` answers false on an empty set before looking (GSet.contains) -/
+theorem tie_setContainsEmptyGuard (s : GSet) : setContainsEmptyGuard s.data.length = decide (s.data.length = 0) := by
+  simp only [setContainsEmptyGuard]
+  by_cases h : s.data.length = 0 <;> simp [h]
+
+/-! ### SafeMap -/
+
+theorem tie_safeMapSetOldCond (m : SafeMap) : safeMapSetOldCond m.delOld = decide (m.delOld ≤ 10000) := by
+  simp only [safeMapSetOldCond, maxDeletion]
+  by_cases h : m.delOld ≤ 10000
+  · have : (m.delOld : Int) ≤ 10000 := by omega
+    simp [h, this]
+  · have : ¬ (m.delOld : Int) ≤ 10000 := by omega
+    simp [h, this]
+
+/-- the two migration conditions of `Del` are the guards of `SafeMap.mig1` / `mig2` at the extracted thresholds -/
+theorem tie_safeMapMigrateConds (m : SafeMap) :
+    safeMapMigrate1Cond m.delOld m.old.length = decide (m.delOld ≥ 10000 ∧ m.old.length < 1000)
+    ∧ safeMapMigrate2Cond m.delNew m.new.length = decide (m.delNew ≥ 10000 ∧ m.new.length < 1000) := by
+  simp only [safeMapMigrate1Cond, safeMapMigrate2Cond, maxDeletion, copyThreshold]
+  have key : ∀ a b : Nat, ((decide ((a : Int) ≥ 10000)) && (decide ((b : Int) < 1000))) = decide (a ≥ 10000 ∧ b < 1000) := by
+    intro a b
+    by_cases h1 : a ≥ 10000 <;> by_cases h2 : b < 1000
+    · have i1 : (a : Int) ≥ 10000 := by omega
+      have i2 : (b : Int) < 1000 := by omega
+      simp [h1, h2, i1, i2]
+    · have i1 : (a : Int) ≥ 10000 := by omega
+      have i2 : ¬ (b : Int) < 1000 := by omega
+      simp [h1, h2, i1, i2]
+    · have i1 : ¬ (a : Int) ≥ 10000 := by omega
+      simp [h1, i1]
+    · have i1 : ¬ (a : Int) ≥ 10000 := by omega
+      simp [h1, i1]
+  exact ⟨key _ _, key _ _⟩
+
+/-! ### Cache -/
+
+/-- `WithLimit(limit)` installs the `keyLru` iff `limit > 0`: the model's `limit = 0` (the driver maps the configured limit
+with `Int.toNat`) is exactly "no LRU" -/
+theorem tie_cacheLimitGuard (l : Int) : cacheLimitGuard l = decide (l.toNat ≠ 0) := by
+  simp only [cacheLimitGuard]
+  by_cases h : l > 0
+  · have : l.toNat ≠ 0 := by omega
+    simp [h, this]
+  · have : l.toNat = 0 := by omega
+    simp [h, this]
+
+/-- `keyLru.add` evicts iff the list — the new key included — is longer than the limit (`CacheG.lruAdd`) -/
+theorem tie_lruOverflowCond (lru : List Nat) (k limit : Nat) :
+    lruOverflowCond ((k :: lru).length : Nat) limit = decide ((k :: lru).length > limit) := by
+  simp only [lruOverflowCond]
+  by_cases h : (k :: lru).length > limit
+  · have : (((k :: lru).length : Nat) : Int) > (limit : Int) := by omega
+    simp only [this, h]
+  · have : ¬ (((k :: lru).length : Nat) : Int) > (limit : Int) := by omega
+    simp only [this, h]
+
+/-- `SetTimer` rejects exactly the delays ≤ 0 for a non-nil key (the driver's `nsI ≤ 0` ⇒ `CacheG.setNoTimer`) -/
+theorem tie_wheelSetTimerRejects (d : Int) : wheelSetTimerRejects d false = decide (d ≤ 0) := by
+  simp [wheelSetTimerRejects]
+
+/-- the wheel `NewCache` builds ticks once a second -/
+theorem tie_cacheWheelInterval : cacheWheelIntervalNs = 1000000000 := by decide
+
+/-! ### RollingWindow.Reduce -/
+
+theorem tie_rwUpdateSkip (rw : RW) (now : Nat) : rwUpdateSkip (rw.span now) = decide (rw.span now = 0) := by
+  simp only [rwUpdateSkip]
+  by_cases h : rw.span now = 0
+  · simp [h]
+  · have : ¬ ((rw.span now : Int) ≤ 0) := by omega
+    simp [h, this]
+
+/-- `Reduce`: the number of buckets visited (`diff`, when positive) and the slot of the first one, from the translated
+statements — the model's `RW.diff` and the start index of `RW.reduce` (clock not behind `lastTime`) -/
+theorem tie_rwReduce (rw : RW) (now : Nat) (h : rw.lastTime ≤ now) :
+    (rwReduceDiff rw.lastTime now rw.interval rw.size rw.ignoreCurrent).toNat = rw.diff now
+    ∧ rwReduceGuard (rwReduceDiff rw.lastTime now rw.interval rw.size rw.ignoreCurrent) = decide (0 < rw.diff now)
+    ∧ rwReduceStart rw.offset (rw.span now) rw.size = (((rw.offset + rw.span now + 1) % rw.size : Nat) : Int) := by
+  have hd : rwReduceDiff rw.lastTime now rw.interval rw.size rw.ignoreCurrent
+      = (rw.size : Int) - (if rw.span now = 0 ∧ rw.ignoreCurrent = true then 1 else (rw.span now : Int)) := by
+    simp only [rwReduceDiff, tie_rwSpan rw now h]
+    by_cases h0 : rw.span now = 0
+    · cases hi : rw.ignoreCurrent <;> simp [h0, hi]
+    · have : ¬ ((rw.span now : Int) = 0) := by omega
+      simp [h0, this]
+  have hs : rw.span now ≤ rw.size := by unfold RW.span; split <;> omega
+  refine ⟨?_, ?_, ?_⟩
+  · rw [hd]; unfold RW.diff; split <;> omega
+  · rw [hd]; unfold rwReduceGuard RW.diff
+    by_cases c : rw.span now = 0 ∧ rw.ignoreCurrent = true
+    · simp only [c, and_self, if_true]
+      by_cases h1 : 0 < rw.size - 1
+      · have : ((rw.size : Int) - 1 > 0) := by omega
+        simp [h1, this] <;> omega
+      · have : ¬ ((rw.size : Int) - 1 > 0) := by omega
+        simp [h1, this] <;> omega
+    · simp only [c, if_false]
+      by_cases h1 : 0 < rw.size - rw.span now
+      · have : ((rw.size : Int) - (rw.span now : Int) > 0) := by omega
+        simp [h1, this] <;> omega
+      · have : ¬ ((rw.size : Int) - (rw.span now : Int) > 0) := by omega
+        simp [h1, this] <;> omega
+  · unfold rwReduceStart
+    rw [Int.tmod_eq_emod_of_nonneg (by omega)]
+    norm_cast
+
+/-! ### constructors, variadic adds, key views, cache glue: statement lists -/
+
+/-- `NewRing`: panics for n < 1, else n zeroed slots (Ring.new; the guard is `tie_newRingGuard`) -/
+theorem tie_newRingStmts : newRingStmts = [
+  "if n < 1 {",
+  "panic(\"n should be greater than 0\")",
+  "}",
+  "return &Ring{ elements: make([]any, n), }"] := by decide
+
+/-- `NewSet`: empty map, tag `untyped` (GSet.new true) -/
+theorem tie_newSetStmts : newSetStmts = [
+  "return &Set{ data: make(map[any]lang.PlaceholderType), tp: untyped, }"] := by decide
+
+/-- `NewUnmanagedSet`: empty map, tag `unmanaged` (GSet.new false) -/
+theorem tie_newUnmanagedSetStmts : newUnmanagedSetStmts = [
+  "return &Set{ data: make(map[any]lang.PlaceholderType), tp: unmanaged, }"] := by decide
+
+/-- `Add(i ...any)`: every element, in order, through `add` (GSet.addMany) -/
+theorem tie_setPubAddStmts : setPubAddStmts = [
+  "range _, each := i {",
+  "s.add(each)",
+  "}"] := by decide
+
+/-- same shape as its sibling above -/
+theorem tie_setPubAddIntStmts : setPubAddIntStmts = [
+  "range _, each := ii {",
+  "s.add(each)",
+  "}"] := by decide
+
+/-- same shape as its sibling above -/
+theorem tie_setPubAddInt64Stmts : setPubAddInt64Stmts = [
+  "range _, each := ii {",
+  "s.add(each)",
+  "}"] := by decide
+
+/-- same shape as its sibling above -/
+theorem tie_setPubAddUintStmts : setPubAddUintStmts = [
+  "range _, each := ii {",
+  "s.add(each)",
+  "}"] := by decide
+
+/-- same shape as its sibling above -/
+theorem tie_setPubAddUint64Stmts : setPubAddUint64Stmts = [
+  "range _, each := ii {",
+  "s.add(each)",
+  "}"] := by decide
+
+/-- same shape as its sibling above -/
+theorem tie_setPubAddStrStmts : setPubAddStrStmts = [
+  "range _, each := ss {",
+  "s.add(each)",
+  "}"] := by decide
+
+/-- `Keys`: every key of the map -/
+theorem tie_setPubKeysStmts : setPubKeysStmts = [
+  "var keys []any",
+  "range key := s.data {",
+  "keys = append(keys, key)",
+  "}",
+  "return keys"] := by decide
+
+/-- `KeysInt`: exactly the keys of dynamic type int -/
+theorem tie_setPubKeysIntStmts : setPubKeysIntStmts = [
+  "var keys []int",
+  "range key := s.data {",
+  "if intKey, ok := key.(int); ok {",
+  "keys = append(keys, intKey)",
+  "}",
+  "}",
+  "return keys"] := by decide
+
+/-- same shape as its sibling above -/
+theorem tie_setPubKeysInt64Stmts : setPubKeysInt64Stmts = [
+  "var keys []int64",
+  "range key := s.data {",
+  "if intKey, ok := key.(int64); ok {",
+  "keys = append(keys, intKey)",
+  "}",
+  "}",
+  "return keys"] := by decide
+
+/-- same shape as its sibling above -/
+theorem tie_setPubKeysUintStmts : setPubKeysUintStmts = [
+  "var keys []uint",
+  "range key := s.data {",
+  "if intKey, ok := key.(uint); ok {",
+  "keys = append(keys, intKey)",
+  "}",
+  "}",
+  "return keys"] := by decide
+
+/-- same shape as its sibling above -/
+theorem tie_setPubKeysUint64Stmts : setPubKeysUint64Stmts = [
+  "var keys []uint64",
+  "range key := s.data {",
+  "if intKey, ok := key.(uint64); ok {",
+  "keys = append(keys, intKey)",
+  "}",
+  "}",
+  "return keys"] := by decide
+
+/-- same shape as its sibling above -/
+theorem tie_setPubKeysStrStmts : setPubKeysStrStmts = [
+  "var keys []string",
+  "range key := s.data {",
+  "if strKey, ok := key.(string); ok {",
+  "keys = append(keys, strKey)",
+  "}",
+  "}",
+  "return keys"] := by decide
+
+/-- `newKeyLru`: a fresh list and index per call, the limit and the eviction callback as given -/
+theorem tie_newKeyLruStmts : newKeyLruStmts = [
+  "return &keyLru{ limit: limit, evicts: list.New(), elements: make(map[string]*list.Element), onEvict: onEvict, }"] := by decide
+
+/-- `Cache.size` (the statistics callback): number of entries -/
+theorem tie_cacheSizeStmts : cacheSizeStmts = [
+  "return len(c.data)"] := by decide
+
+/-- `newCacheStat`: keeps the size callback it is given -/
+theorem tie_newCacheStatStmts : newCacheStatStmts = [
+  "st := &cacheStat{ name: name, sizeCallback: sizeCallback, }",
+  "go st.statLoop()",
+  "return st"] := by decide
+
+/-- `NewCache`: fresh map per cache, options applied to this cache, statistics over this cache's `size`, wheel of one-second interval and `slots` slots whose callback deletes from this cache -/
+theorem tie_newCacheStmts : newCacheStmts = [
+  "cache := &Cache{ data: make(map[string]any), expire: expire, lruCache: emptyLruCache, barrier: syncx.NewSingleFlight(), unstableExpiry: mathx.NewUnstable(expiryDeviation), }",
+  "range _, opt := opts {",
+  "opt(cache)",
+  "}",
+  "if len(cache.name) == 0 {",
+  "cache.name = defaultCacheName",
+  "}",
+  "cache.stats = newCacheStat(cache.name, cache.size)",
+  "timingWheel, err := NewTimingWheel(time.Second, slots, func(k, v any) { key, ok := k.(string) if !ok { return } cache.Del(key) })",
+  "if err != nil {",
+  "return nil, err",
+  "}",
+  "cache.timingWheel = timingWheel",
+  "return cache, nil"] := by decide
+
+/-- `NewSafeMap`: two fresh empty generations (SafeMap.init) -/
+theorem tie_newSafeMapStmts : newSafeMapStmts = [
+  "return &SafeMap{ dirtyOld: make(map[any]any), dirtyNew: make(map[any]any), }"] := by decide
+
+/-- `NewRollingWindow`: size < 1 panics; buckets from `newWindow`; `lastTime` = the clock at creation; options applied (RW.new) -/
+theorem tie_newRollingWindowStmts : newRollingWindowStmts = [
+  "if size < 1 {",
+  "panic(\"size must be greater than 0\")",
+  "}",
+  "w := &RollingWindow[T, B]{ size: size, win: newWindow[T, B](newBucket, size), interval: interval, lastTime: timex.Now(), }",
+  "range _, opt := opts {",
+  "opt(w)",
+  "}",
+  "return w"] := by decide
+
+/-- `newWindow`: `size` buckets, each from its own `newBucket()` call -/
+theorem tie_newWindowStmts : newWindowStmts = [
+  "buckets := make([]B, size)",
+  "for i := 0; i < size; i++ {",
+  "buckets[i] = newBucket()",
+  "}",
+  "return &window[T, B]{ buckets: buckets, size: size, }"] := by decide
+
+/-- `IgnoreCurrentBucket`: sets `ignoreCurrent` -/
+theorem tie_ignoreCurrentStmts : ignoreCurrentStmts = [
+  "return func(w *RollingWindow[T, B]) { w.ignoreCurrent = true }"] := by decide
+
+/-- `Bucket.Add`: sum and count -/
+theorem tie_bucketAddStmts : bucketAddStmts = [
+  "b.Sum += v",
+  "b.Count++"] := by decide
+
+/-- `Bucket.Reset`: both back to zero -/
+theorem tie_bucketResetStmts : bucketResetStmts = [
+  "b.Sum = 0",
+  "b.Count = 0"] := by decide
 
 end GoZero.C16.Tie
